@@ -20,12 +20,12 @@ THEOREMS = [
 ASSUMPTIONS = [
     'asyncio.gather(*aws, return_exceptions=True) runs every child to completion, cancels nothing and '
     'slots results by input index (modelled in Gather/Model.lean; validated by the completion log)',
-    'isinstance(exc, only) = the issubclass table the harness computes for the six classes used',
+    'isinstance(exc, only) = the issubclass table the harness computes for the seven classes used',
 ]
 RULE = ('all lists of 0..N awaitables (N=4 quick, 5 thorough), each returning or raising one of '
-        '{Base(Exception), Sub(Base), Other(Exception), BOnly(BaseException)} after a delay; delays are '
+        '{Base(Exception), Sub(Base), Other(Exception), BOnly(BaseException), CancelledError} after a delay; delays are '
         'a permutation-inducing assignment (every finishing permutation of every outcome list up to N=3, '
-        'random permutations beyond), given as coroutines, tasks or futures; `only` over the six classes; '
+        'random permutations beyond), given as coroutines, tasks or futures; `only` over the seven classes; '
         'run under a virtual clock; distinct = distinct (outcomes, delays, only, kinds) with >= 2 awaitables')
 
 
@@ -45,8 +45,10 @@ class BOnly(BaseException):
     pass
 
 
-CLASSES = [BaseException, Exception, Base, Sub, Other, BOnly]
-RAISABLE = [2, 3, 4, 5]          # class ids an awaitable may raise
+CLASSES = [BaseException, Exception, Base, Sub, Other, BOnly, asyncio.CancelledError]
+RAISABLE = [2, 3, 4, 5, 6]       # class ids an awaitable may raise (6: it ends cancelled, e.g. an awaited task that
+                                 # its owner cancelled - for gather(return_exceptions=True) one more failure)
+NCLS = len(CLASSES)
 SUBTAB = ';'.join(','.join('1' if issubclass(c, d) else '0' for d in CLASSES) for c in CLASSES)
 
 
@@ -118,6 +120,16 @@ def spec(case):
     return [(i, c) for i, (d, c, _) in enumerate(case['aws']) if c is not None and issubclass(CLASSES[c], only)]
 
 
+def norm(l):
+    """gather() reports a cancelled child with a CancelledError of its own making, so the instance does not carry the
+    index the harness attached: entries of that class are compared by class and position only."""
+    return [((-1 if c == 6 else i), c) for i, c in l]
+
+
+def norm1(t):
+    return tuple(t[:1]) + tuple(norm([tuple(t[1:])])[0]) if t and t[0] == 'raised' else t
+
+
 def canon_done(case, done):
     """Completion log with same-instant groups sorted (timer heap order at a tie is not specified)."""
     delays = [d for d, _, _ in case['aws']]
@@ -134,7 +146,7 @@ def gen_cases(ctx):
                 delays = [0] * n
                 for k, i in enumerate(perm):
                     delays[i] = 3 * k + 1
-                for only in range(6):
+                for only in range(NCLS):
                     if n == N and (only + sum(perm[:1])) % 3:
                         continue        # thin the largest size
                     kinds = [('coro', 'task', 'future')[(i + only) % 3] for i in range(n)]
@@ -144,7 +156,7 @@ def gen_cases(ctx):
         n = rng.randint(2, 5)
         aws = [(rng.choice([0, 1, 2, 3, 5, 8, 13]), rng.choice(outcomes + [None]),
                 rng.choice(['coro', 'task', 'future'])) for _ in range(n)]
-        yield {'aws': aws, 'only': rng.randrange(6)}
+        yield {'aws': aws, 'only': rng.randrange(NCLS)}
 
 
 def evaluate(ctx, cases, out):
@@ -166,23 +178,23 @@ def evaluate(ctx, cases, out):
             if sorted(done) != list(range(n)):
                 msg = f'{which}: completion log {done}: not every awaitable ran to completion'
             elif which == 'gather':
-                if res != exp:
+                if norm(res) != norm(exp):
                     msg = f'gather_excs yielded {res}, expected {exp}'
                 elif info and info[0] is not None and info[1] != n:
                     msg = f'gather_excs yielded after only {info[1]} of {n} awaitables had finished'
             else:
                 want = ('raised',) + exp[0] if exp else ('returned', None)
-                if res != want:
+                if norm1(res) != norm1(want):
                     msg = f'raise_first_exc gave {res}, expected {want}'
             if msg:
                 out.concrete.append({'case': case, 'what': msg, 'observed': repr(res),
                                      'signature': {'kind': 'monitor', 'which': which}})
             out.traces_validated += 1
             if which == 'gather':
-                same = (res == m_ys and canon_done(case, done) == m_done)
+                same = (norm(res) == norm(m_ys) and canon_done(case, done) == m_done)
             else:
                 mres = ('raised',) + m_first if m_first else ('returned', None)
-                same = (res == mres and canon_done(case, done) == m_done)
+                same = (norm1(res) == norm1(mres) and canon_done(case, done) == m_done)
             if not same:
                 out.diffs.append({'case': case, 'impl': [repr(res), done], 'model': ans,
                                   'where': f'{which}: yielded list / completion log'})
